@@ -23,6 +23,23 @@ pub fn run(case: &Value, em: &mut Emitter) {
         Err(e) => json!({"k": "err", "e": format!("{:?}", e).chars().take(80).collect::<String>()}),
     });
     em.emit("decode", json!({"doc": doc, "via": "reader"}), out);
+    // TLC-enumerated texts also stand in a HERMES document whose (only) function map is cut off after 0..3 complete
+    // values: the outcome for the mappings text must not depend on what the function-map parser met before
+    if case.get("doc").is_none() {
+        let text: Vec<i64> = case["text"].as_array().unwrap().iter().map(|x| x.as_i64().unwrap()).collect();
+        let key = text.iter().enumerate().fold(text.len() as i64, |a, (i, x)| (a * 31 + (i as i64 + 1) * x) % 1009);
+        if key % 3 == 0 && doc["sources"].as_array().map_or(false, |a| !a.is_empty()) {
+            let mut d2 = doc.clone();
+            let k = (key / 3 % 4) as usize;
+            let mut t: Vec<i64> = (0..k).map(|j| (j as i64 * 2 + key) % 16).collect();
+            t.push(32 + key % 32);
+            let nsrc = doc["sources"][0].as_array().map_or(0, |a| a.len());
+            d2["xfs"] = json!([(0..nsrc).map(|i| if i + 1 == nsrc { json!([[{"names": ["x"], "mappings": t}]]) } else { json!([]) }).collect::<Vec<_>>()]);
+            let d2 = normalise_doc(&d2);
+            let out = decode_out(&write_doc(&d2));
+            em.emit("decode", json!({"doc": d2, "via": "slice"}), out);
+        }
+    }
 }
 
 // ---------------------------------------------------------------- random documents
@@ -112,7 +129,8 @@ pub fn gen_flat_doc(rng: &mut Rng, size: usize, hermes: bool) -> Value {
         d["range"] = json!([r]);
     }
     if hermes {
-        d["xfs"] = json!([(0..nsrc).map(|_| json!([])).collect::<Vec<_>>()]);
+        // function maps of every kind, unparsable ones included (they disable scopes, nothing else)
+        d["xfs"] = json!([(0..nsrc).map(|_| if rng.chance(1, 2) { json!([]) } else { crate::c09::gen_xfs_entry(rng, size.min(3)) }).collect::<Vec<_>>()]);
     }
     if rng.chance(1, 5) {
         let hdr: &[u8] = *rng.pick(&[&b")]}'\n"[..], &b")]}garbage\r\n"[..], &b"}\n"[..], &b"'x\n"[..]]);
